@@ -34,6 +34,9 @@ def main():
     if not build.ok:
         print("INFRASTRUCTURE ERROR:", build.infra_error, file=sys.stderr)
         return 2
+    import linecov
+    cov = linecov.LineCov(os.path.join(common.REPO, "src"))
+    cov.start()
     common.use_repo()
     mod = importlib.import_module(f"props.{prop.lower()}")
     ctx = common.Ctx(prop, tier, seed)
@@ -54,6 +57,16 @@ def main():
         return 2
     finally:
         ctx.cleanup()
+    try:
+        anchors = []
+        for line in open(os.path.join(common.VERIF, "properties.jsonl")):
+            d = json.loads(line)
+            if d.get("id") == prop:
+                anchors = [f for f in d.get("anchors", {}).get("files", []) if f.endswith(".py") and f.startswith("src/")]
+        res.code_lines = cov.report([a[len("src/"):] for a in anchors])
+        cov.stop()
+    except Exception as e:  # never let the bookkeeping change a verdict
+        res.code_lines = {"available": False, "error": repr(e)}
     rc = common.finish(prop, tier, seed, build, res, t0, getattr(mod, "LEVEL_TEXT", ""))
     ev = json.load(open(os.path.join(common.VERIF, "evidence", f"{prop}.json")))
     c = ev["coverage"]
